@@ -30,11 +30,20 @@ rule("C20.n", "every order the user lists is an order of the book - one executio
               "table (no drop_duplicates / unique / groupby / dropna / filtering on the way to self.orders): two identical rows are two "
               "orders", floor=1)
 
+rule("C20.p", "the mapping rows of order k carry the label k - the number that also indexes its bound and its cost (l[k], u[k], c[k]): the label "
+              "comes from the loop variable over the orders (directly or through the 'var_name' column set from it), never from a count of the "
+              "frames that happened to be non-empty (an order without a step in the horizon shifts all later ones)", floor=1, props=["C20", "C08", "C07"])
+
+rule("C20.q", "the steps an order delivers in are the steps that *start* inside its window - the same half-open membership test of the step "
+              "starts (tp >= start) & (tp < end) that asset windows, interval data and take periods use; an interval-overlap test (every step that "
+              "intersects the window) also takes the step that merely contains the start of an order that begins off the grid", floor=1,
+     props=["C20", "C19", "C08"])
+
 ROW_REDUCERS = ("drop_duplicates", "unique", "groupby", "dropna", "query", "head", "tail", "sample", "nlargest", "nsmallest", "duplicated", "first", "last",
                 "drop", "where", "mask", "filter", "compress", "take")
 
 
-@analysis("orderbook", ["C20.a", "C20.b", "C20.c", "C20.f", "C20.l", "C20.m", "C20.n"])
+@analysis("orderbook", ["C20.a", "C20.b", "C20.c", "C20.f", "C20.l", "C20.m", "C20.n", "C20.p", "C20.q"])
 def run(ctx):
     p = ctx.p
     ob = p.cls("OrderBook")
@@ -189,3 +198,63 @@ def run(ctx):
         own = any(isinstance(x, ast.Compare) and isinstance(x.left, ast.Subscript) and au.const_str(x.left.slice) == "asset" and ".name" in au.U(x.comparators[0])
                   for x in au.walk_local(b))
         ctx.ob("C20.f", io_fn, "report rows of this order book only", own, "the order report must filter asset == a.name", node=b)
+
+
+    # ================================================================= C20.p labels of an order's rows
+    org_p = ctx.origins(fn, values_only=True)
+    loops_o = [lp for lp in au.walk_stmts(fn.body) if isinstance(lp, ast.For) and isinstance(lp.target, ast.Name)
+               and any(isinstance(s2, ast.Assign) and isinstance(s2.targets[0], ast.Subscript) and au.base_name(s2.targets[0]) in ("c", "u", "l")
+                       and isinstance(s2.targets[0].slice, ast.Name) and s2.targets[0].slice.id == lp.target.id for s2 in au.walk_stmts(lp.body))]
+    if not loops_o:
+        ctx.ob("C20.p", fn, "labels of an order's rows", None, "the loop over the orders (c[k] = ... / u[k] = ...) was not found")
+    for lp in loops_o:
+        k = lp.target.id
+        idx_sets = [s2 for s2 in au.walk_stmts(fn.body) if isinstance(s2, ast.Assign) and isinstance(s2.targets[0], ast.Attribute) and s2.targets[0].attr == "index"]
+        from_k = []
+        for s2 in idx_sets:
+            inside = any(s2 is x for x in au.walk_stmts(lp.body))
+            names = {x.id for x in org_p.nodes(s2.value, s2) if isinstance(x, ast.Name)} | au.names_in(s2.value)
+            # through a column set from the loop variable:  frame['var_name'] = k ; frame.index = frame['var_name'].values
+            cols = {au.const_str(x.slice) for x in au.walk_local(s2.value) if isinstance(x, ast.Subscript) and au.const_str(x.slice)}
+            via_col = any(isinstance(s3, ast.Assign) and isinstance(s3.targets[0], ast.Subscript) and au.const_str(s3.targets[0].slice) in cols
+                          and isinstance(s3.value, ast.Name) and s3.value.id == k for s3 in au.walk_stmts(lp.body))
+            if inside and (k in names or via_col):
+                from_k.append(s2)
+        keyed = [c for s2 in au.walk_stmts(fn.body) for c in au.walk_own(s2) if isinstance(c, ast.Call) and au.method_name(c) == "concat" and au.kwarg(c, "keys") is not None]
+        bad_keys = [c for c in keyed if any(isinstance(x, ast.Call) and au.method_name(x) in ("range", "len", "arange", "count") for x in au.walk_local(au.kwarg(c, "keys")))]
+        ok = True if from_k and not bad_keys else (False if bad_keys else None)
+        ctx.ob("C20.p", fn, "labels of an order's rows", ok,
+               "the labels of the rows come from %s - a count of the frames that were kept, not the order number %s that indexes l, u and c: one order "
+               "without a step in the horizon (listed before others) and every later order's rows point at the variable of the order before - "
+               "in-horizon orders inherit u = 0 and c = 0 of the outside order, a sell order earns without delivering (1728 instead of 768)"
+               % (au.short(au.kwarg(bad_keys[0], "keys"), 40) if bad_keys else "?", k) if bad_keys else
+               "no assignment <frame>.index = ... from the loop variable %s (or from a column set to it) found inside the loop" % k,
+               node=(bad_keys[0] if bad_keys else lp), ok_detail="index set from the loop variable over the orders")
+
+
+    # ================================================================= C20.q the step selector of an order
+    ffq = ctx.flow(fn)
+    sel_names = set()
+    for st in au.walk_stmts(fn.body):
+        for x in au.walk_own(st):
+            if isinstance(x, ast.Subscript) and isinstance(x.slice, ast.Name) and isinstance(x.ctx, ast.Load) and (
+                    (isinstance(x.value, ast.Name) and any(isinstance(d.value, ast.Attribute) and d.value.attr in ("dt", "I") for d in ffq.defs(x.value.id, st) if d.value is not None))
+                    or (isinstance(x.value, ast.Attribute) and x.value.attr in ("dt", "I"))):
+                sel_names.add((x.slice.id, st))
+    judged = set()
+    for nm, st in sorted(sel_names, key=lambda t: t[1].lineno):
+        for d in ffq.defs(nm, st):
+            if d.kind != "assign" or d.value is None or id(d.node) in judged:
+                continue
+            judged.add(id(d.node))
+            v = d.value
+            half_open = isinstance(v, ast.BinOp) and isinstance(v.op, ast.BitAnd) and all(isinstance(y, ast.Compare) for y in au.flatten_bitand(v))
+            overlap = [y for y in au.walk_local(v) if isinstance(y, ast.Call) and au.method_name(y) in ("overlaps", "contains", "get_indexer", "get_indexer_non_unique", "get_loc", "slice_indexer", "searchsorted")]
+            ctx.ob("C20.q", fn, au.short(d.node, 80), True if half_open else (False if overlap else None),
+                   ("the steps of an order are selected with %s: an interval test on the delivery periods of the steps takes every step that *intersects* "
+                    "the order's window - an order starting at 02:30 on an hourly grid (or at noon on a daily grid) is delivered and paid for in the whole "
+                    "step that contains its start (optimum 372 instead of 36), whereas every other window of the package starts with the first step "
+                    "that begins inside it" % au.short(overlap[0], 50)) if overlap else "the definition of the step selector was not recognised",
+                   node=d.node, ok_detail="half-open membership of the step starts")
+    if not judged:
+        ctx.ob("C20.q", fn, "step selector of an order", None, "no selector applied to the step lengths / step indices found")
